@@ -45,7 +45,8 @@ def unflat (ops : List (Op × Nat)) : Option (PL × Nat) := unflatGo ops [] []
 def opCleanB (o : Op) : Bool :=
   (!(o.name = "Return" || o.name = "Unreachable") || o.args.isEmpty) &&
   (o.args.all (fun a => match a with | .ref "l" _ => false | _ => true) ||
-    (o.name = "Br" || o.name = "BrIf" || o.name = "BrTable"))
+    (o.name = "Br" || o.name = "BrIf" || o.name = "BrTable")) &&
+  o.args.all (fun a => match a with | .ref sp _ => entSpaces.contains sp | _ => true)
 
 mutual
 def PI.wfB : PI → Bool
@@ -100,5 +101,29 @@ def sectionsOK (m : ModuleM) : Bool :=
   m.elems.all (fun e => match e.mode with | .active _ off => offsetOK off | _ => true) &&
   m.elems.all (fun e => match e.items with | .exprs _ es => es.all cexprOK | _ => true) &&
   m.imports.all (fun i => match i.2.2 with | .func t => decide (t < m.sigs.length) | _ => true)
+
+/-- function references outside the code section are in range (what validation guarantees) -/
+def cexprFuncsBelow (n : Nat) (c : CExprM) : Bool :=
+  c.all fun op => op.args.all fun a => match a with | .ref "f" k => decide (k < n) | _ => true
+
+def funcRefsOK (m : ModuleM) : Bool :=
+  let n := importedCount m "f" + m.funcs.length
+  m.exports.all (fun e => e.2.1 != "f" || decide (e.2.2 < n)) &&
+  (match m.start with | some s => decide (s < n) | none => true) &&
+  m.globals.all (fun gl => cexprFuncsBelow n gl.2) &&
+  m.datas.all (fun d => match d.mode with | .active _ off => cexprFuncsBelow n off | _ => true) &&
+  m.elems.all (fun e => match e.mode with | .active _ off => cexprFuncsBelow n off | _ => true) &&
+  m.elems.all (fun e => match e.items with
+    | .funcs fs => fs.all (fun f => decide (f < n))
+    | .exprs _ es => es.all (cexprFuncsBelow n))
+
+/-- every function body of a code slice, against the environment `parseCode` gave it -/
+def bodiesOKc (m : ModuleM) (pfs : List ParsedFunc) : Bool :=
+  (List.range pfs.length).all fun k =>
+    match m.code[k]?, pfs[k]? with
+    | some (_, ops), some pf =>
+      bodyOK { funcs := List.range (importedCount m "f" + (m.code.zip m.funcs).length), types := dedupIds m.sigs,
+               locals := pf.localTys.map (·.1), sigs := m.sigs } ops
+    | _, _ => true
 
 end Walrus
